@@ -18,6 +18,7 @@ typedef struct {
 
 	dir_tree_cfg_t cfg;
 	int state;
+	bool is_hard_link;
 	sqfs_dir_iterator_t *rec;
 } dir_tree_iterator_t;
 
@@ -120,6 +121,8 @@ retry:
 		ent = NULL;
 	}
 
+	it->is_hard_link = (ent->flags & SQFS_DIR_ENTRY_FLAG_HARD_LINK) != 0;
+
 	ent = expand_path(it, ent);
 	if (ent == NULL) {
 		it->state = SQFS_ERROR_ALLOC;
@@ -163,10 +166,35 @@ static int read_link(sqfs_dir_iterator_t *base, char **out)
 {
 	dir_tree_iterator_t *it = (dir_tree_iterator_t *)base;
 
+	int ret;
+
 	if (it->state)
 		return it->state;
 
-	return it->rec->read_link(it->rec, out);
+	ret = it->rec->read_link(it->rec, out);
+	if (ret != 0)
+		return ret;
+
+	/* a hard link target is a path of the scan, it needs the prefix too */
+	if (it->is_hard_link && it->cfg.prefix != NULL &&
+	    it->cfg.prefix[0] != '\0') {
+		size_t plen = strlen(it->cfg.prefix) + 1;
+		size_t slen = strlen(*out) + 1;
+		char *new = realloc(*out, plen + slen);
+
+		if (new == NULL) {
+			free(*out);
+			*out = NULL;
+			return SQFS_ERROR_ALLOC;
+		}
+
+		memmove(new + plen, new, slen);
+		memcpy(new, it->cfg.prefix, plen - 1);
+		new[plen - 1] = '/';
+		*out = new;
+	}
+
+	return 0;
 }
 
 static int open_subdir(sqfs_dir_iterator_t *base, sqfs_dir_iterator_t **out)
